@@ -1,7 +1,7 @@
 """C19: every message feature can be selected on its own, with or without std.
 
 Configurations: each single msgNNNN feature, the empty selection, all_msgs without std;
-each additionally with serde (quick: a seeded sample, thorough: all).  For every
+each additionally with serde (all of them, in both tiers; the tiers differ in corpus size).  For every
 configuration a small driver crate (featdrv) is built against
 rtcm-rs {default-features = false, features = [selection]} -- a compile error is a
 violation ("the crate builds") -- and run on a corpus of frames written by the full
@@ -126,15 +126,8 @@ def main(prop, tier, seed, replay_path):
         configs.append(("empty_selection", []))
         configs.append(("all_msgs_no_std", ["all_msgs"]))
         serde_cfgs = [(f + "+serde", [f, "serde"]) for f in feats] + [("empty_selection+serde", ["serde"]), ("all_msgs_no_std+serde", ["all_msgs", "serde"])]
-        if tier == "quick":
-            keep = [("all_msgs_no_std+serde", ["all_msgs", "serde"]), ("empty_selection+serde", ["serde"])]
-            pool = [c for c in serde_cfgs if c not in keep]
-            rng.shuffle(pool)
-            # one from each shared-fragment family plus random ones
-            must = ["msg1136+serde", "msg1087+serde", "msg1133+serde", "msg1137+serde"]
-            keep += [c for c in pool if c[0] in must]
-            keep += [c for c in pool if c[0] not in must][:6]
-            serde_cfgs = keep
+        # every serde variant in both tiers: a hand-maintained cfg list can be wrong for exactly
+        # one (feature, serde) pair (seeded change C19-R2), so sampling them is not enough
         configs += serde_cfgs
     results = {}
     full = None
